@@ -185,8 +185,10 @@ Definition add_change (r : reader) (w : Z) (data : Z) (k : kind) (h : Z) (t : ts
       | None => (r1, NotAdded)
       | Some owns2 =>
         let owns3 := if is_alive_kind k then owns2 else remove_own h owns2 in
+        (* the ownership table is only committed for a change that passes the time-based filter
+           and the resource limits (r3); a refused change leaves it as it was (r1) *)
         let r3 := set_owns r1 owns3 in
-        if negb (of_interest r3 h t) then (r3, NotAdded) else
+        if negb (of_interest r3 h t) then (r1, NotAdded) else
         let q := r_qos r in
         let num_alive := count (alive_of_inst h) (r_samples r3) in
         let replaces := match q_depth q with Some d => d =? num_alive | None => false end in
@@ -195,9 +197,9 @@ Definition add_change (r : reader) (w : Z) (data : Z) (k : kind) (h : Z) (t : ts
         let max_inst_hit := if existsb (Z.eqb h) ihl then false
                             else len_eq (q_mi q) (Z.of_nat (length ihl)) in
         let mspi_hit := negb replaces && len_eq (q_mspi q) (count (of_inst h) (r_samples r3)) in
-        if max_samples_hit then (r3, Rejected h 2)
-        else if max_inst_hit then (r3, Rejected h 1)
-        else if mspi_hit then (r3, Rejected h 3)
+        if max_samples_hit then (r1, Rejected h 2)
+        else if max_inst_hit then (r1, Rejected h 1)
+        else if mspi_hit then (r1, Rejected h 3)
         else
           if replaces && (num_alive =? 0) then (r3, AddPanic) else
           let samples4 := if replaces then remove_first (alive_of_inst h) (r_samples r3)
